@@ -286,9 +286,12 @@ pub fn gen_program(r: &mut Rng, g: &Geo, p: &Profile, backend: &str, seed_tag: u
         }
         if r.chance(p.reject_pct) && (!topics[ti].log.is_empty() || r.chance(15)) {
             let t = topics[ti].name.clone();
-            match *r.pick(&[0u64, 1, 2, 3, 3, 3, 3, 4, 4, 4, 5, 5, 5, 5]) {
+            match *r.pick(&[0u64, 1, 2, 3, 3, 3, 3, 4, 4, 4, 5, 5, 5, 5, 6, 6, 7, 7]) {
                 0 => lines.push(format!("append L{} {}", r.below(2), next_desc(10))),
                 1 => lines.push(format!("batch L{} {},{}", r.below(2), next_desc(10), next_desc(300))),
+                // topic names at the edge of what the entry header can hold (216 bytes fit, 217 do not)
+                6 => { let m = r.below(6); lines.push(format!("append M{} {}", m, next_desc(10))); lines.push(format!("next M{} 1", m)); }
+                7 => { let m = r.below(6); lines.push(format!("batch M{} {},{}", m, next_desc(10), next_desc(300))); lines.push(format!("append M{} {}", m, next_desc(5))); lines.push(format!("bread M{} 99999 1 -", m)); }
                 2 if g.small => lines.push(format!("append {} {}", t, next_desc(g.max_alloc - g.meta + 1 + r.below(50)))),
                 3 => {
                     let n = g.cap + 1;
